@@ -25,6 +25,7 @@ from pbt.core import Violation, HarnessError, Ctx  # noqa: E402
 
 WATCHDOG_S = {"quick": 15 * 60, "thorough": 60 * 60}
 MAX_SAMPLES = 3
+HEALTH_SCALE = 0.5
 
 
 def load_known(prop):
@@ -437,13 +438,17 @@ def main(argv=None):
         if ev == 0:
             harness_errors.append("clause %s generated no cases" % cl.name)
             continue
-        if pc["_ntcount"] < cl.min_nontrivial * ev:
+        # declared floors (min_nontrivial, require=) are the generator's design targets; the run is declared unhealthy
+        # (exit 2) when a share falls below HEALTH_SCALE of its target.  Seed-to-seed scatter of the shares is about
+        # +-30 % at quick budgets (tools/health_margins.py), starvation shows as a share near zero.
+        if pc["_ntcount"] < HEALTH_SCALE * cl.min_nontrivial * ev:
             harness_errors.append("clause %s: only %d of %d cases non-trivial (< %.0f%%): generator unhealthy" % (
-                cl.name, pc["_ntcount"], ev, 100 * cl.min_nontrivial))
+                cl.name, pc["_ntcount"], ev, 100 * HEALTH_SCALE * cl.min_nontrivial))
         for lab, frac in cl.require.items():
-            if pc["classes"].get(lab, 0) < frac * ev:
+            if pc["classes"].get(lab, 0) < HEALTH_SCALE * frac * ev:
                 harness_errors.append("clause %s: class %r in %d of %d cases (< %.1f%%): generator unhealthy" % (
-                    cl.name, lab, pc["classes"].get(lab, 0), ev, 100 * frac))
+                    cl.name, lab, pc["classes"].get(lab, 0), ev, 100 * HEALTH_SCALE * frac))
+        pc["health_targets"] = {"min_nontrivial": cl.min_nontrivial, "require": cl.require, "enforced_at": HEALTH_SCALE}
 
     # 4. evidence
     evaluations = sum(pc["evaluations"] for pc in per_clause.values()) + corpus_replayed
